@@ -180,9 +180,11 @@ PROPS = {
         rule='scenarios are generated per family (all handler-completion orders for k<=3/4 callers x delivery mode x '
              'transport encoding; staggered delivery; payload sizes 0..64KiB; wide runs up to 64 concurrent callers); '
              'distinct = distinct step list; non-trivial = contains at least one unary call',
-        nontrivial_ops=['ucall'],
-        assumptions=COMMON_ASSUMPTIONS,
+        nontrivial_ops=['ucall', 'storm'],
+        assumptions=COMMON_ASSUMPTIONS + ['in the storm part (thousands of calls released simultaneously) the driver compares each '
+                                          'reply with its own request and reports a mismatch as an event the specification has no action for'],
         models=[],
+        parts=[dict(gen=None, trace_spec='GoatTrace.tla'), dict(gen='c01_storm', trace_spec='GoatRegistryTrace.tla', shard_size=1)],
     ),
     'C02': dict(
         rule='3 stream kinds x client programs (send-all, ping-pong, concurrent, early half-close) x handler programs '
